@@ -102,10 +102,16 @@ pub struct RunOut { pub ev: Vec<String>, pub status: String, pub steps: u64, pub
 
 /// Runs one program to its end under the given host mode.
 pub fn run_source(it: &mut Interpreter, source: &str, path: Option<&str>, resp: &[serde_json::Value], mode: &str, collect_every: u64, max_steps: u64) -> RunOut {
+    run_source_api(it, source, path, resp, mode, collect_every, max_steps, false)
+}
+
+/// `use_eval`: start the program with Interpreter::eval (which runs as far as it can on its own) instead of prepare
+#[allow(clippy::too_many_arguments)]
+pub fn run_source_api(it: &mut Interpreter, source: &str, path: Option<&str>, resp: &[serde_json::Value], mode: &str, collect_every: u64, max_steps: u64, use_eval: bool) -> RunOut {
     EVENTS.with(|e| e.borrow_mut().clear());
     let mut nth = 0usize;
     let mut held: Vec<(RuntimeValue, usize)> = Vec::new();
-    let mut r = it.prepare(source, path.map(ModulePath::new));
+    let mut r = if use_eval { it.eval(source, path.map(ModulePath::new)) } else { it.prepare(source, path.map(ModulePath::new)) };
     let mut steps = 0u64;
     let mut err: Option<String> = None;
     let mut spurious = 0u32;
